@@ -10,16 +10,22 @@
 (*         D     : duration in ms,                                         *)
 (*         MQ    : maximum queueing time in ms (throttle mode),            *)
 (*         items : value -> specific threshold,                            *)
-(*         cap   : parameter capacity (size of the per-value caches)]      *)
+(*         cap   : the configured parameter capacity (EffCap below: the    *)
+(*                 rule's ParamsMaxCapacity, or the documented default)]   *)
 (*                                                                         *)
 (* PART 1 - the PROPERTY: predicates over the history of ONE value.        *)
 (*   first      time the value was first seen                              *)
 (*   adm        sequence of [t, b]: admitted requests (reject mode)        *)
 (*   sched      sequence of [at, b]: scheduled pass times = arrival + wait *)
 (*              of admitted requests (throttle mode)                       *)
+(*   "While the configured parameter capacity is not exceeded": per value  *)
+(*   the RECENCY RANK = number of distinct OTHER values used since the     *)
+(*   value's last admitted request (named ones as a set `since', the fresh *)
+(*   values of floods as a count `fl').  The state of a value may be       *)
+(*   forgotten only when its rank has reached the capacity.                *)
 (* PART 2 - the ALGORITHM of core/hotspot/traffic_shaping.go, branch by    *)
 (*   branch, over two LRU caches with capacity (RuleTimeCounter,           *)
-(*   RuleTokenCounter).                                                    *)
+(*   RuleTokenCounter); a flood of n fresh values is n anonymous entries.  *)
 (***************************************************************************)
 EXTENDS HotParamArgs, FiniteSets
 
@@ -56,23 +62,66 @@ P1(cf, v, sched) ==
 \* P2: nobody is asked to wait as long as the maximum queueing time
 P2(cf, wait) == wait = 0 \/ wait < cf.MQ
 
+\* ---- the configured parameter capacity ------------------------------------------------------------------
+\* Rule.ParamsMaxCapacity when positive (whatever its size), otherwise the documented default
+\* min(capMax, capBase * DurationInSec); library: ParamsCapacityBase = 4000, ParamsMaxCapacity = 20000.
+EffCap(pcap, D, capBase, capMax) ==
+    IF pcap > 0 THEN pcap
+    ELSE LET d == capBase * (D \div 1000) IN IF d <= 0 \/ d > capMax THEN capMax ELSE d
+LibCapBase == 4000
+LibCapMax  == 20000
+
+\* recency rank of v: distinct other values used since v's last admitted request (since it was first seen, if none)
+\*   since : value -> set of named values,   fl : value -> number of fresh (flood) values
+\*   (both are only meaningful for values that have been seen: a value never seen has no state to forget, rank 0)
+Rank(since, fl, v) == Cardinality(since[v]) + fl[v]
+\* the capacity is exceeded for v: that many other values have been in use since - v may have been forgotten
+\* (seen = v has been requested before)
+MayForget(cf, since, fl, v, seen) == seen /\ Rank(since, fl, v) >= cf.cap
+\* bookkeeping: a request of v (ok = admitted) is a use of v by everybody else's count; an admission - or being seen for
+\* the first time - restarts v's own
+SinceAfter(since, v, ok, seen) == [x \in DOMAIN since |-> IF x = v THEN (IF ok \/ ~seen THEN {} ELSE since[x]) ELSE since[x] \cup {v}]
+FlAfter(fl, v, ok, seen) == [x \in DOMAIN fl |-> IF x = v /\ (ok \/ ~seen) THEN 0 ELSE fl[x]]
+FlAfterFlood(fl, n) == [x \in DOMAIN fl |-> fl[x] + n]
+
+\* a flood: n requests (batch 1) with n values never seen before.  A value never seen is idle for ever (E3) and its own
+\* sub-history is that single request (throttling: scheduled at once): with a general threshold >= 1 every one of them
+\* is admitted without waiting; with threshold + burst = 0 (reject) none can be (E1).
+FloodOK(cf, n, adm, wait) ==
+    /\ cf.T >= 1 => (adm = n /\ wait = 0)
+    /\ (cf.mode = "reject" /\ cf.T + cf.B <= 0) => adm = 0
+    /\ cf.mode = "reject" => wait = 0
+
 (***************************************************************************)
 (* PART 2 - LRU caches and the two controllers                             *)
 (***************************************************************************)
-\* an LRU cache: ord = keys, most recently used first; val = key -> stored integer
-EmptyCache == [ord |-> << >>, val |-> << >>]
+\* an LRU cache.  Only the TRACKED keys are stored by name (ord = tracked keys, most recently used first;
+\* val = key -> stored integer); the cache also holds ANONYMOUS entries - the fresh values of a flood, each used
+\* once and never again - which only matter through the room they take: pos[k] = number of entries (tracked or
+\* anonymous) in front of k = distinct keys used since k was last used, size = number of entries held.
+EmptyCache == [ord |-> << >>, val |-> << >>, pos |-> << >>, size |-> 0]
 Has(c, k) == k \in DOMAIN c.val
-Touch(c, k) == [c EXCEPT !.ord = <<k>> \o SelectSeq(c.ord, LAMBDA x : x # k)]
+Touch(c, k) == [c EXCEPT !.ord = <<k>> \o SelectSeq(c.ord, LAMBDA x : x # k),
+                         !.pos = [y \in DOMAIN c.pos |-> IF y = k THEN 0
+                                                         ELSE IF c.pos[y] < c.pos[k] THEN c.pos[y] + 1 ELSE c.pos[y]]]
 \* store through the pointer handed out earlier: no reordering
 Set(c, k, x) == [c EXCEPT !.val = [y \in DOMAIN c.val |-> IF y = k THEN x ELSE c.val[y]]]
-\* insert an absent key at the front; evict the least recently used one beyond the capacity
+\* the cache holds at most cap entries: everything at position cap or beyond (the least recently used) is evicted
+Shrink(cap, ord1, val1, pos1, size1) ==
+    LET live == { y \in DOMAIN val1 : pos1[y] < cap } IN
+    [ord  |-> SelectSeq(ord1, LAMBDA x : x \in live),
+     val  |-> IF live = {} THEN << >> ELSE [y \in live |-> val1[y]],
+     pos  |-> IF live = {} THEN << >> ELSE [y \in live |-> pos1[y]],
+     size |-> IF size1 > cap THEN cap ELSE size1]
+\* insert an absent key at the front; evict the least recently used entry beyond the capacity
 Put(c, cap, k, x) ==
-    LET ord1 == <<k>> \o c.ord
-        val1 == [y \in DOMAIN c.val \cup {k} |-> IF y = k THEN x ELSE c.val[y]]
-    IN  IF Len(ord1) > cap
-          THEN LET old == ord1[Len(ord1)] IN
-               [ord |-> SubSeq(ord1, 1, Len(ord1) - 1), val |-> [y \in DOMAIN val1 \ {old} |-> val1[y]]]
-          ELSE [ord |-> ord1, val |-> val1]
+    Shrink(cap, <<k>> \o c.ord,
+           [y \in DOMAIN c.val \cup {k} |-> IF y = k THEN x ELSE c.val[y]],
+           [y \in DOMAIN c.val \cup {k} |-> IF y = k THEN 0 ELSE c.pos[y] + 1],
+           c.size + 1)
+\* n insertions of n fresh keys that are never used again (one after the other; only the end result matters)
+FloodCache(c, cap, n) ==
+    Shrink(cap, c.ord, c.val, [y \in DOMAIN c.pos |-> c.pos[y] + n], c.size + n)
 \* LruCacheMap.AddIfAbsent: present -> move to front, keep the value; absent -> insert
 AddIfAbsent(c, cap, k, x) == IF Has(c, k) THEN Touch(c, k) ELSE Put(c, cap, k, x)
 
@@ -123,4 +172,11 @@ ThrottleStep(cf, tc, kc, v, b, t) ==
 
 Step(cf, tc, kc, v, b, t) ==
     IF cf.mode = "reject" THEN RejectStep(cf, tc, kc, v, b, t) ELSE ThrottleStep(cf, tc, kc, v, b, t)
+
+\* n requests (batch 1) with n FRESH values - never used before or afterwards, no specific item: every one takes the
+\* "first access" branch of its controller.  adm = how many of them are admitted.
+FloodStep(cf, tc, kc, n) ==
+    IF cf.T <= 0 THEN [adm |-> 0, tc |-> tc, kc |-> kc]
+    ELSE IF cf.mode = "reject" THEN [adm |-> n, tc |-> FloodCache(tc, cf.cap, n), kc |-> FloodCache(kc, cf.cap, n)]
+    ELSE [adm |-> n, tc |-> FloodCache(tc, cf.cap, n), kc |-> kc]
 =============================================================================
